@@ -14,6 +14,8 @@ import (
 	"fmt"
 	"os"
 	"path/filepath"
+	"regexp"
+	"sort"
 	"strconv"
 	"strings"
 
@@ -61,6 +63,9 @@ type TreeCase struct {
 	Format string `json:"format,omitempty"`
 	Mut    string `json:"mut,omitempty"`
 	At     int    `json:"at,omitempty"`
+	// Opts: boolean/number -o options that every fqtest command line using the file
+	// carries (e.g. uncompress=false for the zip bomb sample)
+	Opts map[string]any `json:"opts,omitempty"`
 }
 
 func (c TreeCase) String() string {
@@ -74,7 +79,73 @@ func (c TreeCase) String() string {
 		}
 		return s
 	}
-	return fmt.Sprintf("%s -d %s %s@%d", c.File, c.Format, c.Mut, c.At)
+	o := ""
+	for _, k := range sortedKeys(c.Opts) {
+		o += fmt.Sprintf(" -o %s=%v", k, c.Opts[k])
+	}
+	return fmt.Sprintf("%s -d %s%s %s@%d", c.File, c.Format, o, c.Mut, c.At)
+}
+
+func sortedKeys(m map[string]any) []string {
+	ks := make([]string, 0, len(m))
+	for k := range m {
+		ks = append(ks, k)
+	}
+	sort.Strings(ks)
+	return ks
+}
+
+var optRe = regexp.MustCompile(`-o\s+([a-z_0-9]+)=(\S+)`)
+
+// FqtestOptions returns the -o options (booleans and numbers only) common to every
+// `$ fq` line of the fqtests next to the file that names it: the sample is decoded the
+// way the repository's own tests decode it.
+func FqtestOptions(repo, rel string) map[string]any {
+	p := filepath.Join(repo, rel)
+	base := filepath.Base(p)
+	var common map[string]any
+	lines := 0
+	for d := filepath.Dir(p); strings.Contains(d, "testdata"); d = filepath.Dir(d) {
+		tests, _ := filepath.Glob(filepath.Join(d, "*.fqtest"))
+		for _, tf := range tests {
+			b, err := os.ReadFile(tf)
+			if err != nil {
+				continue
+			}
+			for _, l := range strings.Split(string(b), "\n") {
+				if !strings.HasPrefix(l, "$ fq") || !strings.Contains(l, base) {
+					continue
+				}
+				lines++
+				here := map[string]any{}
+				for _, m := range optRe.FindAllStringSubmatch(l, -1) {
+					switch {
+					case m[2] == "true":
+						here[m[1]] = true
+					case m[2] == "false":
+						here[m[1]] = false
+					default:
+						if n, err := strconv.Atoi(m[2]); err == nil {
+							here[m[1]] = n
+						}
+					}
+				}
+				if common == nil {
+					common = here
+					continue
+				}
+				for k, v := range common {
+					if hv, ok := here[k]; !ok || hv != v {
+						delete(common, k)
+					}
+				}
+			}
+		}
+	}
+	if lines == 0 || len(common) == 0 {
+		return nil
+	}
+	return common
 }
 
 // Tree is one decoded tree with what the driver emitted for it.
@@ -170,6 +241,11 @@ func NewWalker(r *core.Run, drv Driver) (*Walker, error) {
 	if err != nil {
 		return nil, err
 	}
+	if r.Resume >= 0 {
+		// core restarts a dead worker after the announced case; what this shard had judged
+		// before is lost with the process
+		r.NotExhaustive("a worker process died and was restarted: the results of its shard before the crash are lost")
+	}
 	return &Walker{R: r, S: s, Drv: drv}, nil
 }
 
@@ -201,7 +277,11 @@ func (t *Tree) jqCase(max int) map[string]any {
 		m["o"] = map[string]any{"prog": c.Prog}
 	} else {
 		m["f"] = c.Format
-		m["o"] = map[string]any{}
+		o := map[string]any{}
+		for k, v := range c.Opts {
+			o[k] = v
+		}
+		m["o"] = o
 	}
 	return m
 }
@@ -431,9 +511,13 @@ func (w *Walker) WalkCorpus(o CorpusOpts, tops TopStartsFn, fn func(*Tree)) bool
 		}
 		r.Case(int64(fi), f.Path)
 		formats := append([]string{"probe"}, f.Formats...)
+		opts := FqtestOptions(r.Repo, f.Path)
+		if opts != nil {
+			r.Count("corpus_files_with_fqtest_options", 1)
+		}
 		var intact []*Tree
 		for _, fm := range formats {
-			t, _ := BuildCorpus(r.Repo, TreeCase{Kind: "corpus", File: f.Path, Format: fm, Mut: "intact"}, f.Data)
+			t, _ := BuildCorpus(r.Repo, TreeCase{Kind: "corpus", File: f.Path, Format: fm, Mut: "intact", Opts: opts}, f.Data)
 			intact = append(intact, t)
 		}
 		if len(f.Data) > 1<<20 {
@@ -471,7 +555,7 @@ func (w *Walker) WalkCorpus(o CorpusOpts, tops TopStartsFn, fn func(*Tree)) bool
 					continue
 				}
 				seen[at] = true
-				v, _ := BuildCorpus(r.Repo, TreeCase{Kind: "corpus", File: f.Path, Format: t.Case.Format, Mut: "trunc", At: at}, f.Data)
+				v, _ := BuildCorpus(r.Repo, TreeCase{Kind: "corpus", File: f.Path, Format: t.Case.Format, Mut: "trunc", At: at, Opts: opts}, f.Data)
 				vars = append(vars, v)
 			}
 		}
